@@ -294,13 +294,24 @@ def run(ctx: Ctx):
     from ..microeval import Interp, ModuleRef, Record, Raised
     made = []
 
+    noop = ("host", lambda *a, **k: None)
+
+    def conv_record(serial):
+        return Record("Converter", {"serial": serial, "registered": False, "register_structure_hook": noop,
+                                    "register_unstructure_hook": noop, "register_structure_hook_func": noop,
+                                    "register_unstructure_hook_func": noop, "register_structure_hook_factory": noop,
+                                    "register_unstructure_hook_factory": noop})
+
     def mk_converter(*a, **k):
-        r = Record("Converter", {"serial": len(made)})
+        r = conv_record(len(made))
         made.append(r)
         return r
 
     def reg(c):
-        return Record("Registered", {"converter": c})
+        # register_hooks returns the converter it was given (checked on its own: C19 confinement, returns-own-parameter)
+        if isinstance(c, Record) and c.cls_name == "Converter":
+            c.fields["registered"] = True
+        return c
     stub_hooks = ModuleRef("_hooks", attrs={"register_hooks": ("host", reg)})
     stub_cattrs = ModuleRef("cattrs", attrs={"Converter": ("host", mk_converter)})
     g = {"register_hooks": ("host", reg)}
@@ -317,6 +328,16 @@ def run(ctx: Ctx):
                     g[a.asname or a.name] = ("host", mk_converter)
                 elif a.name == "register_hooks":
                     g[a.asname or a.name] = ("host", reg)
+                else:
+                    # any other module of the package (types, validators): an opaque namespace of class objects
+                    class _Any(dict):
+                        def __contains__(self, k):
+                            return True
+
+                        def __getitem__(self, k):
+                            from ..microeval import ClassRef as _CR
+                            return _CR(k)
+                    g[a.asname or a.name] = ModuleRef(a.name, attrs=_Any())
     it = Interp(name=P_CONVERTERS, extra_globals=g)
     for st in cm.tree.body:
         if isinstance(st, ast.FunctionDef):
@@ -335,13 +356,14 @@ def run(ctx: Ctx):
     n2 = len(made)
 
     def fresh_from(r, lo, hi):
-        return isinstance(r, Record) and r.cls_name == "Registered" and any(r.fields["converter"] is m for m in made[lo:hi])
+        return isinstance(r, Record) and r.cls_name == "Converter" and r.fields.get("registered") is True \
+            and any(r is m for m in made[lo:hi])
     fresh = fresh_from(r1, n0, n1) and fresh_from(r2, n1, n2)
     ctx.check(fresh, "fresh-converter", "get_converter:none-branch",
               "get_converter(None) does not create a fresh cattrs.Converter() per call", P_CONVERTERS, gc.lineno)
-    given = Record("Converter", {"serial": "given"})
+    given = conv_record("given")
     r3 = fold([given])
-    ok = isinstance(r3, Record) and r3.cls_name == "Registered" and r3.fields["converter"] is given and fresh
+    ok = r3 is given and given.fields.get("registered") is True and fresh
     ctx.check(ok, "fresh-converter", "get_converter:return",
               "get_converter does not return register_hooks(<the converter it was given / created>)", P_CONVERTERS, gc.lineno)
     default_none = len(gc.args.defaults) == 1 and isinstance(gc.args.defaults[0], ast.Constant) and gc.args.defaults[0].value is None
